@@ -12,7 +12,7 @@ def run(ctx, replay=None):
         mc = [dict(shape="chain", max_env=2, flagsets="CoreFlagSets", invariants=inv, properties=[]),
               dict(shape="chain", max_env=1, flagsets="NoAllFlagSets", invariants=inv, properties=[])]
         ex = [dict(shape="chain", max_env=2, flags="m,c,o", extra="e;c,e,m;e,o", faults=False),
-              dict(shape="star", max_env=1, flags="m,c,o,e", faults=False, env="Edit,Touch,DeleteArt,StripKey,ResaveArt,Replace,MakeCsr,EditProfile,Expire,SetIssuer"),
+              dict(shape="star", max_env=1, flags="m,c,o,e", faults=False, env="Edit,Touch,DeleteArt,StripKey,ResaveArt,Replace,MakeCsr,EditProfile,Expire,SetIssuer,SetProfile"),
               dict(shape="chain", max_env=1, flags="m", extra="c,m;c,m,o;a;e,m", faults=False, native=True)]       # the CLI binary on the native filesystem
     else:
         # (16 flag sets x three shapes at MaxEnv 3 is hours; the chain gets every flag set, the others the core sets)
@@ -26,5 +26,5 @@ def run(ctx, replay=None):
               dict(shape="chain", max_env=2, flags="m", extra="c,m;c,m,o;a;e,m;c,e,m,o", faults=False, native=True),
               dict(shape="star", max_env=2, flags="m", extra="c,m;a", faults=False, native=True),
               dict(shape="chain", max_env=0, flags="m,c,o,e", faults=False, random_walks=30000, walk_len=14,
-                   env="Edit,Touch,DeleteArt,Truncate,StripKey,ResaveArt,Replace,MakeCsr,EditProfile,Expire,SetIssuer,RemoveConfig,AddConfig")]
+                   env="Edit,Touch,DeleteArt,Truncate,StripKey,ResaveArt,Replace,MakeCsr,EditProfile,Expire,SetIssuer,RemoveConfig,AddConfig,SetProfile")]
     return repo.run_lifecycle(ctx, "C10", mc, ex, "model_checking", ASSUME, replay, extra_cov=extra)
